@@ -161,13 +161,28 @@ CHECKS['C18'] = {
     'technique': 'Hypothesis differential testing vs reference resolver + metamorphic option fallback relation',
 }
 
+CHECKS['C04'] = {
+    'engine': 'E1-clustersim',
+    'category': 'exploration',
+    'text': ('Generated cluster episodes (several instances per node, explicit identifier rules, three distributions, '
+             'instances knowing different programs, enable / disable, concurrent start requests on several instances with '
+             'all strategies, crashes / restarts); every start request leaving an instance is checked at creation against '
+             'an independent recomputation (target RUNNING for the requester, program known and enabled on the real '
+             'Supervisor, identifiers rule resolved by the harness, node load from the requester view + its pending starts '
+             '<= 100, not already running / requested) and "No resource available" against the harness eligibility set. Two '
+             'root causes found on the pinned tree are recorded as known findings with a diagnosis.'),
+    'design_ref': 'DESIGN.md 5/C04',
+    'note': CLUSTER_NOTE,
+    'technique': 'Hypothesis-generated histories on a cluster simulator, per-request differential oracle',
+}
+
 HOOK_COMMITS = []
 
 ENGINES = [
     {'name': 'E1-clustersim', 'path': 'clustersim/', 'kind_free_text':
         'deterministic cluster simulator: N real Supvisors instances in one process on a fake OS / network / clock; '
         'Hypothesis generates configuration and history; per-property monitors',
-     'serves_properties': ['C01', 'C02', 'C07', 'C08', 'C12', 'C14', 'C16']},
+     'serves_properties': ['C01', 'C02', 'C04', 'C07', 'C08', 'C12', 'C14', 'C16']},
     {'name': 'E3-solo', 'path': 'clustersim/solo.py', 'kind_free_text':
         'one real instance with puppet peers / pure component harnesses driven by Hypothesis',
      'serves_properties': ['C11', 'C15', 'C18', 'C20']},
@@ -175,5 +190,5 @@ ENGINES = [
 
 _PENDING = 'check not built yet in this round (the technique applies; see DESIGN.md section 5)'
 NOT_APPLICABLE = {pid: _PENDING for pid in
-                  ['C03', 'C04', 'C05', 'C06', 'C09', 'C10', 'C13',
+                  ['C03', 'C05', 'C06', 'C09', 'C10', 'C13',
                    'C17', 'C19']}
